@@ -43,7 +43,58 @@ const (
 	OpExtract // aux = hi<<8|lo
 	OpConcat
 	OpApp // uninterpreted function application; name = function symbol
+	OpBV2Int // Aux = 1 signed, 0 unsigned
+	OpInt2BV // Aux = width
 )
+
+// IntW marks terms of the mathematical-integer sort. It is used for time
+// values only (clock, deadlines, durations): difference constraints over Int
+// are decided instantly, while the same chains over 64-bit bit-vectors (with
+// wrap-around) time out. Assumption: time arithmetic does not overflow int64.
+const IntW uint8 = 255
+
+func IntC(v int64) *Term { return &Term{Op: OpConst, W: IntW, Val: uint64(v)} }
+
+// ToInt converts a bit-vector term to the Int sort (signed interpretation
+// unless it is a zero extension).
+func ToInt(t *Term) *Term {
+	if t.W == IntW {
+		return t
+	}
+	switch t.Op {
+	case OpConst:
+		return IntC(t.SInt())
+	case OpIte:
+		return Ite(t.Args[0], ToInt(t.Args[1]), ToInt(t.Args[2]))
+	case OpZExt:
+		return &Term{Op: OpBV2Int, W: IntW, Args: []*Term{t.Args[0]}, Aux: 0}
+	}
+	return &Term{Op: OpBV2Int, W: IntW, Args: []*Term{t}, Aux: 1}
+}
+
+// ToBV converts an Int term to a bit-vector of width w.
+func ToBV(t *Term, w uint8) *Term {
+	if t.W != IntW {
+		return Resize(t, w, true)
+	}
+	if t.Op == OpConst {
+		return BV(w, t.Val)
+	}
+	if t.Op == OpBV2Int && t.Args[0].W == w {
+		return t.Args[0]
+	}
+	return &Term{Op: OpInt2BV, W: w, Args: []*Term{t}, Aux: int(w)}
+}
+
+func coerce(a, b *Term) (*Term, *Term) {
+	if a.W == IntW && b.W != IntW {
+		return a, ToInt(b)
+	}
+	if b.W == IntW && a.W != IntW {
+		return ToInt(a), b
+	}
+	return a, b
+}
 
 var opSMT = map[Op]string{
 	OpNot: "not", OpAnd: "and", OpOr: "or", OpIte: "ite", OpEq: "=",
@@ -221,6 +272,7 @@ func Or(a, b *Term) *Term {
 }
 
 func Ite(c, a, b *Term) *Term {
+	a, b = coerce(a, b)
 	if c.IsTrue() {
 		return a
 	}
@@ -242,6 +294,7 @@ func Ite(c, a, b *Term) *Term {
 }
 
 func Eq(a, b *Term) *Term {
+	a, b = coerce(a, b)
 	if a.W != b.W {
 		panic(fmt.Sprintf("sym.Eq: width mismatch %d vs %d", a.W, b.W))
 	}
@@ -288,6 +341,10 @@ func Eq(a, b *Term) *Term {
 
 // Bin builds a binary bit-vector operation (result has the operand width).
 func Bin(op Op, a, b *Term) *Term {
+	a, b = coerce(a, b)
+	if a.W == IntW {
+		return binInt(op, a, b)
+	}
 	if a.W != b.W {
 		panic(fmt.Sprintf("sym.Bin %v: width mismatch %d vs %d", opSMT[op], a.W, b.W))
 	}
@@ -431,8 +488,85 @@ func Bin(op Op, a, b *Term) *Term {
 	return &Term{Op: op, W: w, Args: []*Term{a, b}}
 }
 
+func binInt(op Op, a, b *Term) *Term {
+	if a.Op == OpConst && b.Op == OpConst {
+		x, y := a.SInt(), b.SInt()
+		switch op {
+		case OpAdd:
+			return IntC(x + y)
+		case OpSub:
+			return IntC(x - y)
+		case OpMul:
+			return IntC(x * y)
+		case OpSDiv, OpUDiv:
+			if y != 0 {
+				return IntC(x / y)
+			}
+		case OpSRem, OpURem:
+			if y != 0 {
+				return IntC(x % y)
+			}
+		}
+	}
+	switch op {
+	case OpAdd:
+		if a.Op == OpConst && a.Val == 0 {
+			return b
+		}
+		if b.Op == OpConst && b.Val == 0 {
+			return a
+		}
+		if b.Op == OpSub && b.Args[1] == a {
+			return b.Args[0]
+		}
+		if a.Op == OpSub && a.Args[1] == b {
+			return a.Args[0]
+		}
+	case OpSub:
+		if b.Op == OpConst && b.Val == 0 {
+			return a
+		}
+		if a == b {
+			return IntC(0)
+		}
+		if a.Op == OpAdd && a.Args[0] == b {
+			return a.Args[1]
+		}
+		if a.Op == OpAdd && a.Args[1] == b {
+			return a.Args[0]
+		}
+	case OpMul:
+		if a.Op == OpConst && a.Val == 1 {
+			return b
+		}
+		if b.Op == OpConst && b.Val == 1 {
+			return a
+		}
+	case OpSDiv, OpUDiv, OpSRem, OpURem:
+		// truncated division of Go differs from SMT div/mod for negative operands;
+		// time values are non-negative in the kernels (recorded assumption)
+	default:
+		// bitwise / shifts: go through 64-bit bit-vectors
+		return Bin(op, ToBV(a, 64), ToBV(b, 64))
+	}
+	return &Term{Op: op, W: IntW, Args: []*Term{a, b}}
+}
+
 // Cmp builds a comparison (Ult, Ule, Slt, Sle).
 func Cmp(op Op, a, b *Term) *Term {
+	a, b = coerce(a, b)
+	if a.W == IntW {
+		if a.Op == OpConst && b.Op == OpConst {
+			if op == OpUlt || op == OpSlt {
+				return Bool(a.SInt() < b.SInt())
+			}
+			return Bool(a.SInt() <= b.SInt())
+		}
+		if a == b {
+			return Bool(op == OpUle || op == OpSle)
+		}
+		return &Term{Op: op, Args: []*Term{a, b}}
+	}
 	if a.W != b.W {
 		panic(fmt.Sprintf("sym.Cmp: width mismatch %d vs %d", a.W, b.W))
 	}
@@ -487,6 +621,12 @@ func BNot(a *Term) *Term {
 }
 
 func Neg(a *Term) *Term {
+	if a.W == IntW {
+		if a.Op == OpConst {
+			return IntC(-a.SInt())
+		}
+		return &Term{Op: OpNeg, W: IntW, Args: []*Term{a}}
+	}
 	if a.Op == OpConst {
 		return BV(a.W, -a.Val)
 	}
@@ -497,6 +637,15 @@ func Neg(a *Term) *Term {
 func Resize(a *Term, w uint8, signed bool) *Term {
 	if a.W == w {
 		return a
+	}
+	if a.W == IntW {
+		if w == 64 {
+			return a // 64-bit integers may stay in the Int sort (time values)
+		}
+		return ToBV(a, w)
+	}
+	if w == IntW {
+		return ToInt(a)
 	}
 	if a.Op == OpConst {
 		if w > a.W && signed {
@@ -529,10 +678,20 @@ func sortSMT(w uint8) string {
 	if w == 0 {
 		return "Bool"
 	}
+	if w == IntW {
+		return "Int"
+	}
 	return fmt.Sprintf("(_ BitVec %d)", w)
 }
 
 func constSMT(t *Term) string {
+	if t.W == IntW {
+		v := t.SInt()
+		if v < 0 {
+			return fmt.Sprintf("(- %d)", uint64(-v))
+		}
+		return fmt.Sprintf("%d", v)
+	}
 	if t.W == 0 {
 		if t.Val != 0 {
 			return "true"
@@ -589,6 +748,32 @@ func (t *Term) head() string {
 		return fmt.Sprintf("(_ extract %d %d)", t.Aux>>8, t.Aux&0xff)
 	case OpApp:
 		return quoteSym(t.Name)
+	case OpInt2BV:
+		return fmt.Sprintf("(_ int2bv %d)", t.Aux)
+	case OpBV2Int:
+		return "bv2nat"
+	}
+	if t.W == IntW {
+		switch t.Op {
+		case OpAdd:
+			return "+"
+		case OpSub, OpNeg:
+			return "-"
+		case OpMul:
+			return "*"
+		case OpSDiv, OpUDiv:
+			return "div"
+		case OpSRem, OpURem:
+			return "mod"
+		}
+	}
+	if len(t.Args) == 2 && t.Args[0].W == IntW {
+		switch t.Op {
+		case OpUlt, OpSlt:
+			return "<"
+		case OpUle, OpSle:
+			return "<="
+		}
 	}
 	return opSMT[t.Op]
 }
